@@ -30,6 +30,7 @@ type Program struct {
 	ModPath   string
 	Stale     []string
 	GhostFields map[string]string
+	ArrayInit map[string]map[int64]*ssa.Const // global array name -> index -> constant initial element
 }
 
 func fkey(pkg, rel string) string { return pkg + "\x00" + rel }
@@ -83,7 +84,7 @@ func LoadProgram(repo string, patterns []string, specDir string, tags string) (*
 		return nil, fmt.Errorf("package errors: %s", strings.Join(errs, "; "))
 	}
 	prog, spkgs := ssautil.Packages(pkgs, ssa.NaiveForm|ssa.InstantiateGenerics)
-	p := &Program{RepoDir: repo, Pkgs: pkgs, SSA: prog, SPkgs: map[string]*ssa.Package{}, Funcs: map[string]*ssa.Function{}, Contracts: map[string]*Contract{}, Specs: map[string]*Contract{}, Types: map[string]*Contract{}, Immutable: map[string]bool{}}
+	p := &Program{RepoDir: repo, Pkgs: pkgs, SSA: prog, SPkgs: map[string]*ssa.Package{}, Funcs: map[string]*ssa.Function{}, Contracts: map[string]*Contract{}, Specs: map[string]*Contract{}, Types: map[string]*Contract{}, Immutable: map[string]bool{}, ArrayInit: map[string]map[int64]*ssa.Const{}}
 	for i, sp := range spkgs {
 		if sp == nil {
 			continue
@@ -109,13 +110,46 @@ func LoadProgram(repo string, patterns []string, specDir string, tags string) (*
 		isInit := f.Name() == "init" || strings.HasPrefix(f.Name(), "init#")
 		for _, b := range f.Blocks {
 			for _, ins := range b.Instrs {
+				if isInit {
+					// constant initial elements of package-level arrays:  *(&g[k]) = c
+					if st, isStore := ins.(*ssa.Store); isStore {
+						if ia, ok := st.Addr.(*ssa.IndexAddr); ok {
+							if g, ok := ia.X.(*ssa.Global); ok {
+								if kc, ok := ia.Index.(*ssa.Const); ok {
+									if vc, ok := st.Val.(*ssa.Const); ok && kc.Value != nil {
+										if p.ArrayInit[globalName(g)] == nil {
+											p.ArrayInit[globalName(g)] = map[int64]*ssa.Const{}
+										}
+										p.ArrayInit[globalName(g)][kc.Int64()] = vc
+									}
+								}
+							}
+						}
+					}
+				}
 				for _, op := range ins.Operands(nil) {
 					if g, ok := (*op).(*ssa.Global); ok {
 						if u, isLoad := ins.(*ssa.UnOp); isLoad && u.X == g {
 							continue
 						}
 						if isInit {
-							if st, isStore := ins.(*ssa.Store); isStore && st.Addr == g {
+							continue
+						}
+						// slicing or indexing a package-level array for reading does not make it mutable;
+						// a store through an address derived from it in the same instruction chain does
+						if _, isSlice := ins.(*ssa.Slice); isSlice {
+							continue
+						}
+						if ia, isIdx := ins.(*ssa.IndexAddr); isIdx {
+							stored := false
+							if refs := ia.Referrers(); refs != nil {
+								for _, r := range *refs {
+									if st, ok := r.(*ssa.Store); ok && st.Addr == ia {
+										stored = true
+									}
+								}
+							}
+							if !stored {
 								continue
 							}
 						}
